@@ -92,7 +92,7 @@ fn run_item_from(exe: &str, item: &Item, bound: usize, workers: usize, seed: u64
             res.stats.cap_hit = Some("wall-clock cap of the check".into());
             break;
         }
-        let spec = WorkerSpec { scenario: item.scenario.to_string(), cfg: item.cfg.clone(), bound: b, elide: true, try_sites: sites.clone(), seed };
+        let spec = WorkerSpec { scenario: item.scenario.to_string(), cfg: item.cfg.clone(), bound: b, elide: true, try_sites: sites.clone(), seed, fresh: false };
         let r = explore(exe, &spec, &Limits { workers, deadline: Some(deadline), stop_on_violation: true });
         sites = r.try_sites.clone();
         res.try_sites = sites.clone();
@@ -354,7 +354,7 @@ pub fn check_main(args: &[String], exe_normal: &str) -> i32 {
         for c in &r.crashed {
             // the worker process died while running the subject: a verdict only if the death is reproduced, twice, by replaying the
             // announced prefix in fresh processes (then it is a crash of the subject under that schedule: memory error / abort)
-            let spec = WorkerSpec { scenario: r.item.scenario.to_string(), cfg: r.item.cfg.clone(), bound: r.bound_target, elide: true, try_sites: r.try_sites.clone(), seed };
+            let spec = WorkerSpec { scenario: r.item.scenario.to_string(), cfg: r.item.cfg.clone(), bound: r.bound_target, elide: true, try_sites: r.try_sites.clone(), seed, fresh: false };
             let confirmed = match &c.prefix {
                 Some(p) => match (replay_dies(&exe, &spec, p), replay_dies(&exe, &spec, p)) {
                     (Some(a), Some(_)) => Some(a),
@@ -415,7 +415,7 @@ pub fn check_main(args: &[String], exe_normal: &str) -> i32 {
                 continue;
             }
             // confirm by replaying twice in fresh processes
-            let spec = WorkerSpec { scenario: r.item.scenario.to_string(), cfg: r.item.cfg.clone(), bound: r.bound_target, elide: true, try_sites: r.try_sites.clone(), seed };
+            let spec = WorkerSpec { scenario: r.item.scenario.to_string(), cfg: r.item.cfg.clone(), bound: r.bound_target, elide: true, try_sites: r.try_sites.clone(), seed, fresh: false };
             let a = replay_in_subprocess(&exe, &spec, &v.schedule);
             let b = replay_in_subprocess(&exe, &spec, &v.schedule);
             match (a, b) {
